@@ -27,6 +27,7 @@ meta = {"property": "$PROP", "label": "$LABEL", "demo_exit_clean": $CLEAN, "demo
         "check_exit": $RC, "violation_lines": $NV, "check_wall_s": $T1 - $T0,
         "needs": open("$D/note.txt").read().strip() if __import__("os").path.exists("$D/note.txt") else ""}
 meta["detected"] = ($RC == 1 and $NV > 0)
+meta["evaluated_on_repo_head"] = "$(git -C $WT log --format=%h | head -1)"
 json.dump(meta, open("$D/meta.json", "w"), indent=1)
 print("$LABEL", "demo clean/seeded:", $CLEAN, $SEEDED, "| tests:", meta["pinned_tests_with_patch"], "| check rc", $RC, "violations", $NV, "wall", $T1 - $T0)
 PY
